@@ -56,9 +56,10 @@ structure Layout (img : TrackImg) (offs : Nat → Nat) (cap n : Nat) : Prop wher
   npos : 0 < n
 
 theorem locate_congr (img img' : TrackImg) (hk : img'.kind = img.kind) (ht : img'.tmap = img.tmap)
-    (he : img'.ents = img.ents) (ho : img'.offset = img.offset) (hl : img'.bytes.length = img.bytes.length) (t : Nat) :
+    (he : img'.ents = img.ents) (ho : img'.offset = img.offset) (hc : img'.trkCap = img.trkCap)
+    (hl : img'.bytes.length = img.bytes.length) (t : Nat) :
     locate img' t = locate img t := by
-  unfold locate; rw [hk, ht, he, ho, hl]
+  unfold locate; rw [hk, ht, he, ho, hc, hl]
 
 theorem numTracks_congr (img img' : TrackImg) (hk : img'.kind = img.kind) (he : img'.ents = img.ents) :
     numTracks img' = numTracks img := by
@@ -66,9 +67,9 @@ theorem numTracks_congr (img img' : TrackImg) (hk : img'.kind = img.kind) (he : 
 
 theorem layout_congr {img img' : TrackImg} {offs : Nat → Nat} {cap n : Nat} (h : Layout img offs cap n)
     (hk : img'.kind = img.kind) (ht : img'.tmap = img.tmap) (he : img'.ents = img.ents) (ho : img'.offset = img.offset)
-    (hl : img'.bytes.length = img.bytes.length) : Layout img' offs cap n :=
+    (hc : img'.trkCap = img.trkCap) (hl : img'.bytes.length = img.bytes.length) : Layout img' offs cap n :=
   ⟨by rw [numTracks_congr img img' hk he]; exact h.tracks,
-   fun t ht' => by rw [locate_congr img img' hk ht he ho hl]; exact h.loc t ht',
+   fun t ht' => by rw [locate_congr img img' hk ht he ho hc hl]; exact h.loc t ht',
    fun t ht' => by rw [hl]; exact h.inb t ht', h.disj, h.nle, h.npos⟩
 
 structure ImgInv (img : TrackImg) (offs : Nat → Nat) (cap n vol o : Nat) (gaps ids : List Nat)
